@@ -3,25 +3,39 @@
 Monitor: snapshots around API calls + twin histories.
 
 For every generated case a G-model (omv/gen/models.py: Newton / Broyden / NLBGS(+Aitken) / NLBJ stacks, approximated and
-matrix-free partials, output scaling, units, index chains; plus three small components carrying DISCRETE variables)
-is built TWICE in the same process (instances A and B), given the same initial values and run once.  Then a random
-history of 5-15 API calls is executed:
+matrix-free partials, output scaling, units, index chains; plus three small components carrying DISCRETE variables,
+omv/gen/c31_kit.py) is built TWICE in the same process (instances A and B), given the same initial values and run once.
+Then a random history of 5-15 API calls (+ closing probes) is executed:
 
  (1) determinism   - `rerun` steps: record (inputs, outputs, discrete) -> run_model -> O1 -> put the recorded state
                      back -> run_model -> O2; O1 and O2 must be BITWISE equal (solver-internal memory such as
                      Broyden's inverse jacobian or Aitken's factor is hidden state that must not leak); the first
                      run_model of A and of B (same program, same process) must be bitwise equal as well.
- (2) read-only     - around EVERY query call (compute_totals analytic/approx, compute_jacvec_product, check_partials,
-                     check_totals, get_total_coloring / compute_total_coloring, list_inputs/list_outputs/list_vars with
-                     random flags, get_val, driver value getters, list_driver_vars, list_indep_vars) the flat nonlinear
-                     input vector, output vector and all discrete values are snapshotted; they must be BITWISE unchanged
-                     (residual vectors are not examined).
+ (2) read-only     - around EVERY query call (compute_totals analytic/approx, driver._compute_totals,
+                     compute_jacvec_product, check_partials, check_totals, get_total_coloring / compute_total_coloring,
+                     list_inputs/list_outputs/list_vars with random flags, get_val, driver value getters,
+                     list_driver_vars, list_indep_vars) the flat nonlinear input vector, output vector and all discrete
+                     values are snapshotted; they must be BITWISE unchanged (residual vectors are not examined).  Many
+                     query calls are made on a STALE model (set_val without run_model), which is legal.
  (3) hidden state  - instance B executes the same history WITHOUT the query calls that are not marked `keep`; the
-                     results of all kept steps (outputs after run_model, totals, jvp, check data, values) must be
-                     bitwise equal between A and B.  When a total coloring is in play (declared on the driver or
-                     installed by get_total_coloring) total-derivative results are compared with the G tolerance instead
-                     (a colored solve is a different floating-point program), everything else stays bitwise.
-                     On a discrepancy the culprit call is identified by re-running the history with single query calls.
+                     results of all kept steps (vectors after run_model, totals, jvp, check data, values) must be
+                     bitwise equal between A and B; a run_model / set_val that raises in one history only is a
+                     violation too.  When a total coloring is in play (declared on the driver or installed by
+                     get_total_coloring) total-derivative results are compared with the G tolerance instead (a colored
+                     solve is a different floating-point program), everything else stays bitwise.
+
+Mechanism keys.  A change is first reported under the generic key `<api>:<vector>-changed[:stale-model]`,
+`run_model-twice:<vector>-differ:nl=<solvers>`, `hidden-state:<culprit api>:<later result>`.  The culprit of a
+hidden-state discrepancy is found by re-running the history with single query calls.  DIAGNOSED mechanisms get their
+own key `<mechanism>:...` - the diagnosis is made by intervention (the named piece of internal state is put back right
+after the suspected call and the discrepancy must disappear) or by a narrow numerical signature:
+   scaling-roundtrip, stale-explicit-apply-roundoff, perturbed-evaluation-leaves-discrete-outputs   (vector changes)
+   leftover-linear-vectors, leftover-residual-vector, leftover-relevance-state, broyden-jacobian-carried-over,
+   approx-options-overwritten, approximations-pruned-by-relevance                                     (hidden state)
+Anything that does not fit a diagnosed mechanism keeps its generic key, so a new defect is never hidden by a listed one.
+A later discrepancy that follows from a vector change already reported in the same history is not reported twice.
+Exceptions escaping a query call say nothing about read-only-ness: the case is discarded under
+`query-call-raises:<where>` (visible in the evidence).
 """
 import contextlib
 import copy
@@ -45,7 +59,7 @@ RULE = ('random G-model specs (feed-forward and contractive feedback loops; Newt
         'histories of 5-15 calls drawn from {set_val, run_model, rerun, query calls with random arguments}; distinct = '
         '(solver tree, configuration, sequence of call kinds); non-trivial = the history contains at least one query '
         'call made on a model with a solver loop, an implicit component, approximated partials or stale inputs')
-MIN_JUDGED = {'quick': 80, 'thorough': 1500}
+MIN_JUDGED = {'quick': 90, 'thorough': 1800}
 _APIS = ['compute_totals', 'compute_totals-approx', 'compute_jacvec_product', 'check_partials-fd', 'check_partials-cs',
          'check_totals-fd', 'check_totals-cs', 'get_total_coloring', 'compute_total_coloring', 'list_inputs',
          'list_outputs', 'list_outputs-residuals', 'list_vars', 'get_val', 'driver-values', 'list_driver_vars',
@@ -56,13 +70,19 @@ REQUIRED_COUNTERS = (['obs:' + a for a in _APIS] +
                       'cell:aitken', 'cell:coloring-declared', 'cell:approx-partials', 'cell:matfree',
                       'cell:approx_totals', 'cell:scaling', 'cell:mode=fwd', 'cell:mode=rev'])
 ASSUMPTIONS = ['"same state" = same nonlinear input vector, output vector and discrete values (put back through the '
-               'vector API); residual and linear vectors are derived data and are not restored',
+               'vector API); residual vectors, linear vectors and solver objects are NOT restored - a dependence on them '
+               'is exactly the hidden state the property excludes',
                'query calls are only issued after the first run_model (check_partials/check_totals document that they '
                'run a never-run model) and never with run_model=True / setup=True arguments',
                'total derivatives are compared with tolerance (1e-8 direct, 1e-6 iterative linear solvers) instead of '
                'bitwise when a total coloring is declared or was installed by get_total_coloring, and not at all for '
-               'approx_totals + coloring; check_partials data are not compared when a directional (random direction) '
-               'check is configured',
+               'approx_totals + coloring; the "resids" column of list_outputs is not compared',
+               'argument combinations that make a query RAISE for reasons unrelated to the property are not generated '
+               '(directional checks, force_dense=False, residuals_tol / list_indep_vars printing with string-valued '
+               'discrete variables, is_indep_var on a subsystem, compute_jacvec_product under approx_totals); a query '
+               'that raises anyway discards the case; a refusal of identical fd options is accepted as documented',
+               'histories that compute colorings use direct linear solvers, and at most one iterative linear solver '
+               'sits on any root-to-leaf path with maxiter capped at 60 (cost control only)',
                'no MPI; files written by coloring go to the worker temp cwd']
 SHARD_TIMEOUT = {'quick': 1500, 'thorough': 7200}
 
@@ -72,12 +92,12 @@ OPTS = dict(p_index=0.5, p_units=0.5, p_chain2=0.3, p_param=0.4, p_matfree=0.15,
 RO_KINDS = ['compute_totals', 'compute_totals', 'jacvec', 'check_partials', 'check_totals', 'coloring', 'list_inputs',
             'list_outputs', 'list_outputs', 'list_vars', 'get_val', 'get_val', 'driver_values', 'list_driver_vars',
             'list_indep_vars']
-TOLERANT = ('compute_totals', 'check_totals', 'coloring', 'driver_totals')
+TOLERANT = ('compute_totals', 'check_totals', 'coloring')
 
 
 def shards(tier, seed):
     n = 16 if tier == 'quick' else 64
-    per = 7 if tier == 'quick' else 40
+    per = 8 if tier == 'quick' else 40
     per = int(os.environ.get('OMV_C31_PER', per))     # development aid: smoke-test a tier with fewer cases
     return [{'seed': seed * 100000 + i * 1000, 'n': per, 'tier': tier} for i in range(n)]
 
